@@ -39,6 +39,12 @@ def storeStep (kv : KV) (fs : List String) : KV × String :=
       let kv' := (chunks 1000 l).foldl (fun kv c => (step kv (Op.addMany c)).1) kv
       (kv', s!"ok:{l.length}")
     | none => (kv, "bad-op")
+  | ["rebuildclear"] =>
+    -- only the FIRST batch of RebuildIndexes (the three range deletes): the committed state a
+    -- concurrent reader can observe while the rebuild is still running
+    (match rebuildBatches kv with
+     | b :: _ => (applyBatch kv b, "ok")
+     | [] => (kv, "ok"))
   | ["rebuild"] => mut1 (some Op.rebuild)
   | ["reopen"] => mut1 (some Op.reopen)
   | ["get", id] =>
@@ -71,6 +77,25 @@ def storeStep (kv : KV) (fs : List String) : KV × String :=
       let H := topoHashOf t
       (kv, match scanExact kv H t thr tol with | some r => encAlerts [r] | none => "none")
     | _, _, _ => (kv, "bad-op")
+  | ["scanfullnames", t, thr, tol] =>
+    match decTopo t, parseRat thr, parseRat tol with
+    | some t, some thr, some tol =>
+      let H := topoHashOf t
+      let names := (scanFull kv H t thr tol).map (fun r => encStr r.sigId ++ "@" ++ encStr r.sigName)
+      (kv, String.intercalate "," (names.mergeSort (fun a b => decide (a ≤ b))))
+    | _, _, _ => (kv, "bad-op")
+  | ["scanexactnames", t, thr, tol] =>
+    match decTopo t, parseRat thr, parseRat tol with
+    | some t, some thr, some tol =>
+      let H := topoHashOf t
+      (kv, match scanExact kv H t thr tol with | some r => encStr r.sigId ++ "@" ++ encStr r.sigName | none => "none")
+    | _, _, _ => (kv, "bad-op")
+  | ["candsnames", t, tol] =>
+    match decTopo t, parseRat tol with
+    | some t, some tol =>
+      let H := topoHashOf t
+      (kv, String.intercalate "," ((candidates kv H t tol).map (fun s => encStr s.id ++ "@" ++ encStr s.name)))
+    | _, _ => (kv, "bad-op")
   | ["list"] => (kv, withBrute (String.intercalate "," ((listIDs kv).map keyToHex))
                       (String.intercalate "," ((sortById (abs kv)).map (fun s => keyToHex (bytes s.id)))))
   | ["count"] => (kv, withBrute (toString (countSigs kv)) (toString (abs kv).length))
